@@ -47,6 +47,18 @@ CHECKS = {
    text="Generated systems (13 patterns incl. labels aliasing states, array states, constant states, anonymous inputs, literal shapes) and all 116 shipped btor2 designs: written text must be read back, same number/types of inputs/states/outputs/bads/constraints, each function equivalent for ALL valuations (re-read symbols are linked to the originals by position in the query). Explicit distinct names of the re-read system must survive a further write/read cycle (string comparison, side condition).",
    design_ref="DESIGN.md section 4 C09",
    note="Trusted: RefSmt, solvers. States with neither init nor next (turned into inputs by the reader by design) and systems the writer rejects are outside the claim. One genuine name-drift defect is a recorded known finding."),
+ "C02": dict(
+   technique="solver-decided reference reachability vs the real bmc on live solvers: z3 5.1 decides, on an independent reference unrolling, whether a bad state is reachable at each depth <= k for ALL executions; the real bmc (real text protocol to the installed z3 4.8.12 and cvc5 1.0) must return exactly that verdict and first failing depth under 4 capability profiles x 2 modes x simplify on/off",
+   category="translation_validation",
+   text="Per generated system and bound the oracle query quantifies over all initial values, all input sequences and all values of next-less states (all executions of length <= k). The real bmc is run 16 times per (system, bound) through a delegating SolverContext that selects check-sat-assuming vs push/pop; any verdict or first-failing-depth mismatch, Err, panic or hang is a violation. The script's meaning is decided separately in C04.",
+   design_ref="DESIGN.md section 4 C02",
+   note="Trusted: RefUnroll, z3 5.1 (oracle), the live solvers' answers. cvc5 profiles are skipped for systems with a non-literal constant array (cvc5 1.0 rejects the non-standard `as const` there). Bounds <= 12, grammar-sized systems."),
+ "C03": dict(
+   technique="SMT validation of witnesses: every witness returned by the real bmc / pdr on live z3 and cvc5 (several solver seeds through PATH shims) is pinned into an independent reference unrolling; Q1 (pins admit an execution satisfying init, all constraints, exactly the listed bad states) must be sat and Q2 (pins admit any other outcome) must be unsat",
+   category="translation_validation",
+   text="Witnesses come from the real get_witness/get_smt_value/get_value path under 4 profiles x 2 modes (+ pdr's BMC fall-back), on failing and on safe systems (a witness on a safe system can only be wrong). The solver decides Q1/Q2 over all unpinned values (array cells the witness does not list); structural clauses (lengths, names, order, a value for every input at every step) are checked natively. The quantifier 'every model the solver may return' is enumerated: 2 solvers x 2-3 seeds.",
+   design_ref="DESIGN.md section 4 C03",
+   note="Trusted: RefUnroll, z3 5.1. For states that keep an init but have no next only Q1 is required (the witness format has no place for their later values)."),
 }
 ALL = [f"C{i:02d}" for i in range(1, 21)]
 m = {
